@@ -54,11 +54,11 @@ def gen_exhaustive(tier, rng):
         for b in pool:
             for c in pool:
                 toks = (a, b, c)
-                if admissible(toks) and (tier != 'quick' or rng.random() < 0.3):
+                if admissible(toks) and (tier != 'quick' or rng.random() < 0.2):
                     yield ('exhaustive', 1, [straight(toks), [], ''])
     if tier != 'quick':
         for toks in itertools.product(first, pool, pool, pool):
-            if rng.random() < 0.03 and admissible(toks):
+            if rng.random() < 0.02 and admissible(toks):
                 yield ('exhaustive4', 1, [straight(toks), [], ''])
     # operand triples for the ternary built-ins (and pairs for the binary ones with special pools)
     ops = INTS + STRS + [F(I(1)), Q('gi'), Id('gi')]
@@ -86,6 +86,37 @@ def gen_exhaustive(tier, rng):
         for toks in itertools.product(epool, repeat=n):
             if admissible(toks) and (tier != 'quick' or n == 1 or rng.random() < 0.5):
                 yield ('exhaustive_entry', 1, [straight(toks, entry=True), ['K2', 'k1'], BIB2])
+
+
+# every kind of value (int, str, missing field, field value, function, reference to each kind of interpreter
+# object) as operand of every built-in, inside ITERATE: the dynamic typing of the Python code, exhaustively
+KINDS = [I(0), I(2), Sx(''), Sx('ab'), Id('note'), Id('title'), F(I(1)), F(), Q('gi'), Q('gs'), Q('ei'), Q('es'),
+         Q('title'), Q('crossref'), Q('skip$'), Q('f0')]
+UNARY = ['add.period$', 'chr.to.int$', 'duplicate$', 'empty$', 'int.to.chr$', 'int.to.str$', 'missing$', 'num.names$', 'pop$',
+         'purify$', 'text.length$', 'top$', 'warning$', 'width$', 'write$']
+BINARY = ['>', '<', '=', '*', ':=', '+', '-', 'change.case$', 'text.prefix$', 'swap$', 'while$']
+TERNARY = ['substring$', 'format.name$', 'if$']
+def gen_kinds(tier, rng):
+    pre = [cmd('FUNCTION', [Id('f0')], [I(7)])]
+    def case(toks):
+        return ('exhaustive_kinds', 1, [straight(toks, pre=pre, entry=True), ['k1'], BIB2])
+    for a in KINDS:
+        for b in UNARY:
+            yield case([a, Id(b)])
+            if b == 'write$':
+                yield case([a, Id(b), Id('newline$')])
+    for a in KINDS:
+        for b in KINDS:
+            for op in BINARY:
+                if op == 'while$' and a in (F(I(1)), Q('f0')):
+                    continue          # a condition that is always true
+                yield case([a, b, Id(op)])
+    for a in KINDS:
+        for b in KINDS:
+            for c in KINDS:
+                for op in TERNARY:
+                    if tier != 'quick' or rng.random() < 0.2:
+                        yield case([a, b, c, Id(op)])
 
 # ----------------------------------------------------------------------------------------
 # structured random programs
@@ -484,13 +515,15 @@ def gen_all(tier, rng):
         yield c
     for c in gen_exhaustive(tier, rng):
         yield c
-    for i in range(1500 if tier == 'quick' else 15000):
+    for c in gen_kinds(tier, rng):
+        yield c
+    for i in range(1500 if tier == 'quick' else 10000):
         cmds, cites, bib = gen_program(rng, loops=True)
         yield ('random', 1, [cmds, cites, bib])
-    for i in range(1500 if tier == 'quick' else 15000):
+    for i in range(1500 if tier == 'quick' else 10000):
         yield ('random_exec', 1, list(gen_exec_program(rng)))
     for i in range(600 if tier == 'quick' else 6000):
         yield ('order_probe', 1, list(order_probe(rng)))
-    for i in range(1500 if tier == 'quick' else 15000):
+    for i in range(1500 if tier == 'quick' else 10000):
         cmds, cites, bib = gen_program(rng, loops=False)
         yield ('malformed', 1, [mutate(rng, cmds), cites, bib])
